@@ -3171,3 +3171,103 @@ func ruleRecursionDropsOptions(prog *Program, rep *Report, rels ...string) {
 	rep.Rules = append(rep.Rules, "M-recopt: a function with a variadic options parameter that calls itself on the parts of its argument hands the options on: no self-call omits them")
 	runSynRule(prog, rep, "M-recopt", rels, matchRecursionDropsOptions, fixtureRecursionDropsOptions, 1, 4)
 }
+
+// ---------------------------------------------------------------- M-normtwin
+
+// ruleNormalizeTwins: the script evaluator normalises operand values (int kinds to int64, float
+// kinds to float64, gen nodes to their simple values) in two places: the function normalize and
+// an inlined copy of its type switch in evalWithRoot. For every case type both have, the
+// conversion applied must be the same (gen.Float -> float64 in one and int64 in the other makes
+// gen data compare differently from simple data).
+func ruleNormalizeTwins(prog *Program, rep *Report) {
+	rep.Rules = append(rep.Rules, "M-normtwin: every type switch of package jp that normalises operand kinds (it has a case for gen.Float) applies, for each case type it shares with another such switch, the same conversion; and no float case type is converted to an integer type")
+	pk := prog.Pkg("jp")
+	if pk == nil {
+		rep.Errorf("M-normtwin: package jp not loaded")
+		return
+	}
+	info := pk.TypesInfo
+	type sw struct {
+		fn   string
+		pos  token.Pos
+		conv map[string]string
+	}
+	var sws []sw
+	for _, f := range pk.Syntax {
+		if strings.HasSuffix(prog.Fset.Position(f.Pos()).Filename, "_test.go") {
+			continue
+		}
+		for _, d := range f.Decls {
+			fd, ok := d.(*ast.FuncDecl)
+			if !ok || fd.Body == nil {
+				continue
+			}
+			ast.Inspect(fd.Body, func(n ast.Node) bool {
+				ts, ok := n.(*ast.TypeSwitchStmt)
+				if !ok {
+					return true
+				}
+				conv := map[string]string{}
+				hasGenFloat := false
+				for _, cl := range ts.Body.List {
+					cc := cl.(*ast.CaseClause)
+					if len(cc.List) != 1 || len(cc.Body) != 1 {
+						continue
+					}
+					as, ok := cc.Body[0].(*ast.AssignStmt)
+					if !ok || len(as.Rhs) != 1 {
+						continue
+					}
+					call, ok := ast.Unparen(as.Rhs[0]).(*ast.CallExpr)
+					if !ok || len(call.Args) != 1 {
+						continue
+					}
+					tv, ok := info.Types[call.Fun]
+					if !ok || !tv.IsType() {
+						continue
+					}
+					ct := types.ExprString(cc.List[0])
+					if ct == "gen.Float" {
+						hasGenFloat = true
+					}
+					conv[ct] = types.TypeString(tv.Type, types.RelativeTo(pk.Types))
+				}
+				if hasGenFloat && len(conv) >= 4 {
+					sws = append(sws, sw{funcKey(fd), ts.Pos(), conv})
+				}
+				return true
+			})
+		}
+	}
+	if len(sws) < 2 {
+		rep.Errorf("M-normtwin: %d normalising switches found (floor 2)", len(sws))
+		return
+	}
+	sort.Slice(sws, func(i, j int) bool { return sws[i].pos < sws[j].pos })
+	cells := 0
+	for i, s := range sws {
+		for ct, t := range s.conv {
+			cells++
+			key := fmt.Sprintf("jp.%s#%d:case %s", s.fn, i+1, ct)
+			isFloatCase := strings.Contains(strings.ToLower(ct), "float")
+			if isFloatCase && strings.HasPrefix(t, "int") {
+				rep.Violate(Finding{Rule: "M-normtwin", Key: key + ":float-to-int", Pos: prog.Pos(s.pos), Msg: fmt.Sprintf("%s normalises %s with %s(...): the fraction is cut off before the comparison", s.fn, ct, t)})
+				continue
+			}
+			bad := ""
+			for j, o := range sws {
+				if j != i {
+					if ot, ok := o.conv[ct]; ok && ot != t {
+						bad = fmt.Sprintf("%s converts it with %s", o.fn, ot)
+					}
+				}
+			}
+			if bad != "" {
+				rep.Violate(Finding{Rule: "M-normtwin", Key: key, Pos: prog.Pos(s.pos), Msg: fmt.Sprintf("%s normalises %s with %s(...) but %s: the two copies of the normalisation disagree", s.fn, ct, t, bad)})
+			} else {
+				rep.Discharge("M-normtwin", key, prog.Pos(s.pos), t)
+			}
+		}
+	}
+	rep.Eval(cells)
+}
